@@ -11,7 +11,7 @@ Not decided: item-for-item equality of results, Ref accessor equivalence.
 """
 from collections import Counter
 
-from .. import common, facts as F, sim
+from .. import common, facts as F, lex, sim
 from ..sim import Adt, Opq, UNK
 
 P = "parse::Parser::<R>::"
@@ -211,13 +211,16 @@ def close_param(ctx, lexpr, rule=None):
                             return ("value", Adt(RES, 0, [Adt(OPT, 1, [seq[k]])]))
                         if P + "peek_or_null" in nm:
                             return ("value", Adt(RES, 0, [0x20]))
+                        # the byte after a `.` is looked at through the parser's or the reader's peek: a space
+                        if P + "peek" in nm or "parse::read::Read::peek" in nm:
+                            return ("value", Adt(RES, 0, [Adt(OPT, 1, [0x20])]))
                         if any(x in nm for x in (P + "expect_value", P + "expect_datum")):
                             return ("value", Adt(RES, 0, [UNK]))
                         if any(x.endswith("Datum::into_inner") for x in nm):
                             return ("value", sim.Tup([UNK, UNK]))
                         return None
 
-                    S = sim.Sim([lexpr], hooks={"call": hook}, inline=lambda a, b: b.path == "parse::is_delimiter",
+                    S = sim.Sim([lexpr], hooks={"call": hook}, inline=lex.helper_inline(lexpr),
                                 max_visits=4, max_paths=4000)
                     outs = set()
                     for p in S.run(f, args={ti: term}):
